@@ -277,8 +277,9 @@ where
             self.occupy_vacant_node(node_idx, weight);
             Ok(node_idx)
         } else {
+            let node_idx = self.g.try_add_node(Some(weight))?;
             self.node_count += 1;
-            self.g.try_add_node(Some(weight))
+            Ok(node_idx)
         }
     }
 
